@@ -21,14 +21,14 @@ CHECKS = {
    technique="exhaustive caller-program enumeration (depth-bounded) x deviation-bounded scripted inner stream (short, Interrupted, error, park-until-gate) on the real SyncStream / AsyncReadStream / AsyncWriteStream, reference-FIFO and wake-obligation oracle",
    text="Every caller program up to depth 4 (quick) / 5 (thorough) over the adapters' entry points is run on the real code for base capacities {1,2,4} and limits {2,4,8}, with every placement of <= 1-3 inner-stream deviations; oracle: bytes produced by the inner reader == bytes delivered + into_parts() remainder, bytes accepted by write == bytes received by the inner writer after a (retried) flush/close, would-block exactly when the reference model needs servicing, limits honoured, Pending only when the inner stream is parked, and every entry point that returned Pending has its latest (fresh per poll) waker woken when the gate opens.",
    note="Trusted: scripted inner streams and the gate (c12.rs, env.rs). The thorough tier caps each scenario at 3e6 executions and says so (exhaustive=false with caps listed). Known finding: read-side limit overshoot below base_capacity."),
- "C03": dict(engine="e3loom", design="§2/C03",
-   technique="loom: exhaustive interleaving exploration (preemption-bounded, C11 memory model) of the real compio-executor cross-thread wake path against a parked runtime loop",
-   text="Layer (a) of DESIGN §2/C03: the real compio-executor (its own cfg(loom) switch) is explored by loom in closed scenarios: 1-2 waking threads (wake / wake_by_ref) x cross-thread queue sizes 1-2 x re-arm-and-wake-again x two tasks with a full queue, while the runtime thread runs block_on's tick/park loop on a correct event count standing for the driver. A lost wake-up is a loom deadlock (runtime parked forever). Preemption bound 2 (quick) / 3 (thorough). Layers (b) driver flag protocol and (c) real drivers are listed in DESIGN and not yet part of this check.",
-   note="Trusted: loom's memory model; crossbeam ArrayQueue treated as linearizable (stays on std atomics under cfg(loom)); the parked-runtime stand-in (20 lines). Does not yet cover the driver's own idle/notified flag protocol nor the external-event-loop mode."),
- "C04": dict(engine="e3loom", design="§2/C04",
-   technique="loom: exhaustive interleaving exploration (preemption-bounded) of the real compio-executor join-handle / waker / executor-drop paths across threads, with drop-counting and loom-cell-tracked futures",
-   text="Layer (b) of DESIGN §2/C04: handle awaited (parking and busy-polling), dropped or cancelled on another thread while the home thread runs the task; task waker used on another thread while the executor is dropped; output taken remotely while the executor is dropped. Oracle: output reaches the remote handle exactly once, future dropped exactly once and never polled after finishing, every poll/drop of the future ordered on the home thread (loom UnsafeCell tracking), no deadlock. The single-threaded program enumeration (layer a) is not yet part of this check.",
-   note="Trusted: loom. A leaked clone of the join handle's waker (observed, outside the property's statement) is reported as an outcome class, not a violation."),
+ "C03": dict(engine="e3loom+e_c03", design="§2/C03",
+   technique="loom (preemption-bounded exhaustive interleavings, C11 model) on the real executor wake path; exhaustive wake-position enumeration on the real io_uring and polling drivers through cfg(compio_verif) interleaving points",
+   text="(a) loom explores the real compio-executor cross-thread wake path: 1-2 waking threads (wake / wake_by_ref) x queue sizes 1-2 x re-arm-and-wake-again x two tasks with a full queue, against block_on's tick/park loop on a correct event count; a lost wake-up is a loom deadlock. (b+c) on the REAL drivers every program of loop calls up to depth 3 (quick) / 4 (thorough) over {poll(0), poll(T), external-loop iteration = flush + wait for the descriptor + poll(0)} is run with one wake-up injected at every position: between calls, at every named step inside Driver::poll/flush (before/after the flag reset, before/after the blocking wait, after set_awake, after reaping), and from a second thread while blocked; plus wake-ups produced by completions reaped while pushing (submission-queue overflow, capacity 2). Oracle: the first blocking wait after an unconsumed wake-up returns promptly; without any wake-up it really waits.",
+   note="Trusted: loom; ArrayQueue as linearizable; 'a wake performed synchronously at an interleaving point == another thread performing it there' (the wake is one atomic RMW + at most one eventfd/poller write); real time only as a watchdog (prompt < 30 ms vs wait 60 ms; second-thread wakes within 200 ms of 1500 ms), violations are re-run once before being reported."),
+ "C04": dict(engine="e2pure+e3loom", design="§2/C04",
+   technique="exhaustive single-threaded program enumeration on the real Executor with instrumented futures/outputs; loom (preemption-bounded exhaustive interleavings) for handle / waker / executor-drop operations from other threads",
+   text="(a) every program up to depth 6 (quick) / 7 (thorough) over {spawn (7 task kinds: ready, pending-until-woken, self-waking, wake-and-finish, panicking, waking a sibling, dropping a sibling's handle), wake, tick, poll-handle, drop-handle, detach, drop-executor} with <= 3 tasks and max_interval in {1,2,61} runs on the real executor; oracle: polled only inside tick and never after finishing or (beyond the fairness bound) after cancellation, future dropped exactly once, output delivered xor dropped exactly once, results/panics reach only their own handle, starvation bound ceil(tasks/max_interval)+1 ticks, handles resolve after executor drop, no panic. (b) loom: handle awaited (parking and busy-polling), dropped or cancelled on another thread while the home thread runs the task; waker used on another thread while the executor is dropped; output taken remotely while the executor is dropped; futures carry loom cells so any poll/drop off the home thread is reported.",
+   note="Trusted: loom; instrumented futures. A leaked clone of the join handle's waker (observed, outside the property's statement) is reported as an outcome class, not a violation."),
  "C06": dict(engine="e3loom", design="§2/C06",
    technique="loom: exhaustive interleaving exploration of the real compio-driver/src/fd.rs (include!d, synchrony re-bound to loom Arc/AtomicBool/AtomicWaker)",
    text="Layer (b) of DESIGN §2/C06 (handles shareable across threads, feature sync): closer awaiting take() vs 1-2 holders dropping on other threads, clone-then-drop, two concurrent closers, try_unwrap vs drop, droppers only. Oracle: the closer resolves (no deadlock), exactly one closer obtains the descriptor, the descriptor is dropped exactly once and never while a holder still uses it (loom cell tracking). Layer (a), single-threaded close protocol and descriptor-leak accounting on the real runtime, is not yet part of this check.",
@@ -94,6 +94,7 @@ def main():
             {"name": "e3loom", "path": "/verif/e3loom", "serves_properties": ["C03", "C04", "C06", "C17"], "kind_free_text": "loom (bounded-preemption exhaustive interleaving exploration) over the repository's own source: compio-executor via its cfg(loom), fd.rs and asyncify.rs via include! with std/flume/synchrony re-bound to loom-backed shims; each scenario in a sub-process"},
             {"name": "e_c08", "path": "/verif/e_c08", "serves_properties": ["C08"], "kind_free_text": "differential operation-sequence explorer: OS reference vs compio on io_uring vs compio on polling (fusion driver, driver chosen at run time)"},
             {"name": "e_c09", "path": "/verif/e_c09", "serves_properties": ["C09"], "kind_free_text": "explicit-state BFS with a virtual clock over the transplanted timer sources (build.rs copies them from /repo and re-binds std), plus real-time trace conformance on the real runtime"},
+            {"name": "e_c03", "path": "/verif/e_c03", "serves_properties": ["C03"], "kind_free_text": "wake-position enumerator on the real drivers (cfg(compio_verif) interleaving points inside Driver::poll/flush)"},
             {"name": "e2pure", "path": "/verif/e2pure", "serves_properties": ["C10", "C11", "C12", "C13"], "kind_free_text": "input-exhaustive / deviation-bounded explorer driving real compio-buf and compio-io code (stateless DFS with prefix replay, vcore::explore)"},
         ],
         "checks": checks,
